@@ -16,7 +16,26 @@ mkdir -p $W-out
 rc=0
 for P in $PROPS; do
   echo "== seeded $ID against $P"
-  VERIF_REPO=$W VERIF_LEAN=$W-lean VERIF_OUT=$W-out /verif/check $P "$@" | grep -E "^(VIOLATION|KNOWN-FINDING|OK|FAIL|INFRA)" | cut -c1-300 || true
+  VERIF_REPO=$W VERIF_LEAN=$W-lean VERIF_OUT=$W-out /verif/check $P "$@" > $W-out/$P.log 2>&1 || true
+  grep -E "^(VIOLATION|KNOWN-FINDING|OK|FAIL|INFRA)" $W-out/$P.log | cut -c1-300 || true
+  python3 - "$S" "$P" "$W-out" <<'PY'
+import json, sys, glob, os, time
+S, P, OUT = sys.argv[1:4]
+log = open(os.path.join(OUT, P + '.log')).read()
+viol = [l for l in log.splitlines() if l.startswith('VIOLATION')]
+if not viol: outcome = 'MISSED (check printed no VIOLATION)' if '\nOK ' in '\n' + log else 'INFRASTRUCTURE'
+elif all('no-failing-input-found' in l for l in viol): outcome = 'VIOLATION no-failing-input-found'
+else: outcome = 'VIOLATION with concrete failing input'
+ex = None
+for f in sorted(glob.glob(os.path.join(OUT, 'replays', P + '-*.json'))):
+    d = json.load(open(f))
+    if d.get('kind') == 'failing-input': ex = {'what': str(d.get('what'))[:300], 'input': str(d.get('input'))[:400]}; break
+tp = os.path.join(S, 'trial.json')
+t = json.load(open(tp)) if os.path.exists(tp) else {}
+t[P] = {'outcome': outcome, 'violation_lines': len(viol), 'example': ex, 'at': time.strftime('%Y-%m-%dT%H:%MZ', time.gmtime()),
+        'base_commit': os.popen('git -C /repo rev-parse --short HEAD').read().strip()}
+json.dump(t, open(tp, 'w'), indent=1)
+PY
   for f in $W-out/replays/$P-*.json; do [ -f "$f" ] && python3 -c "
 import json,sys; d=json.load(open('$f')); print('   replay:', d.get('kind'), '|', str(d.get('what'))[:160], '| input:', str(d.get('input'))[:200], '| broken:', [b[:120] for b in d.get('broken_obligations', [])][:2])"; done
 done
